@@ -537,6 +537,48 @@ func runC04(p *core.Prog, r *core.Report) {
 				}
 			}
 		})
+		// the captured text is the segment just looked up (for :param) resp. the rest of the path from the same start (for *)
+		var segLow, segHigh string
+		for _, l := range lookupsOn(find, nextKey, methodTags) {
+			if l.kind == "segment" {
+				if sl, ok := l.key.(*ssa.Slice); ok {
+					segLow, segHigh = sx.ValPath(sl.Low), sx.ValPath(sl.High)
+				}
+			}
+		}
+		for _, l := range lookupsOn(find, nextKey, methodTags) {
+			if !strings.HasPrefix(l.kind, "const:") {
+				continue
+			}
+			for e := range l.hit {
+				for _, in := range e.To().Instrs {
+					st, ok := in.(*ssa.Store)
+					if !ok {
+						continue
+					}
+					fa, ok := st.Addr.(*ssa.FieldAddr)
+					if !ok || sx.FieldOf(fa) != vF {
+						continue
+					}
+					c, ok := st.Val.(*ssa.Call)
+					if !ok || !isBuiltin(c, "append") {
+						continue
+					}
+					elems := variadicElems(c.Call.Args[1])
+					okTxt := false
+					got := "?"
+					if len(elems) == 1 {
+						if sl, ok := elems[0].(*ssa.Slice); ok && isStringT(sl.X.Type()) {
+							got = sx.ValPath(sl.Low) + ":" + sx.ValPath(sl.High)
+							if sx.ValPath(sl.Low) == segLow && (sx.ValPath(sl.High) == segHigh || sl.High == nil) {
+								okTxt = true
+							}
+						}
+					}
+					r.Check(okTxt && segLow != "", "C04-R5", "lookup: value captured on the "+l.kind+" hit is the text of the segment being matched", p.Pos(in.Pos()), "path["+segLow+":"+segHigh+"] (or to the end for *)", "the captured value is path["+got+"], not the segment path["+segLow+":"+segHigh+"] that was just looked up")
+				}
+			}
+		}
 		r.Check(okR && nR == 2, "C04-R5", "lookup: one captured value per :param/* transition", p.FuncPos(find), "each parameter hit appends exactly one value; nothing else writes the value list", whyR)
 		// successful returns assign K from the matched node
 		okK, nK := true, 0
